@@ -2120,13 +2120,18 @@ fn specialize(ctor: &Ctor, pattern: &[TypedPattern]) -> Vec<PatternStack> {
             | PatternEnum::StructIgnoreRemaining(struct_name_in_pattern, fields)
                 if struct_name == struct_name_in_pattern =>
             {
-                vec![
-                    fields
-                        .iter()
-                        .map(|(_, pattern)| pattern.clone())
-                        .chain(tail)
-                        .collect(),
-                ]
+                // the pattern lists its fields in any order and (with `..`) not all of them, the
+                // constructor has one column per field of the definition:
+                let mut field_patterns = Vec::with_capacity(field_types.len());
+                for (field_name, ty) in field_types {
+                    if let Some((_, pattern)) = fields.iter().find(|(f, _)| f == field_name) {
+                        field_patterns.push(pattern.clone());
+                    } else {
+                        let wildcard = PatternEnum::Identifier("_".to_string());
+                        field_patterns.push(Pattern::typed(wildcard, ty.clone(), *meta));
+                    }
+                }
+                vec![field_patterns.into_iter().chain(tail).collect()]
             }
             _ => vec![],
         },
